@@ -199,6 +199,26 @@ def check(run, repo):
         got = I.call_method(o, q, [], {})
         run.check(same(got, C(0)), 'REF.zero', 'PiecewiseCovEffect.' + q, 'zero', 'coverage effects must contribute '
                   'no %s (got %s)' % (q[4:], show(got)), owner.module, fn)
+    # with no entropy, every energy form (H, F, G) is the same excess energy as U at the temperature asked for, and
+    # is independent of temperature in energy units
+    w = World(repo, 2)
+    w.ranks['xq'] = Fr(5)
+    Dw = w.I.D
+    xq, Tq = Dw.sym('xq'), Dw.sym('Tq')
+    u = w.I.call_method(w.obj, 'get_UoRT', [], {'x': xq, 'T': Tq})
+    for q in ('get_HoRT', 'get_FoRT', 'get_GoRT'):
+        if repo.find_method(ci, q, missing_ok=True) is None:
+            continue
+        owner, fn = repo.find_method(ci, q)
+        run.fn(owner.qual + '.' + q)
+        got = w.I.call_method(w.obj, q, [], {'x': xq, 'T': Tq})
+        run.check(isinstance(got, Rat) and isinstance(u, Rat) and same(got, u), 'TWIN.energy-forms',
+                  'PiecewiseCovEffect.' + q, 'same excess energy as U',
+                  '%s(x, T) is %s but the excess energy U/RT at the same coverage and temperature is %s'
+                  % (q, show(got, 120), show(u, 120)), owner.module, fn)
+        run.check(isinstance(got, Rat) and Dw.d(got * Tq, 'Tq').iszero(), 'DERIV.T-free', 'PiecewiseCovEffect.' + q,
+                  'temperature independent', 'T * %s depends on temperature: the excess energy in energy units must '
+                  'not' % q[4:], owner.module, fn)
     # serialise / reload
     w = World(repo, 3)
     w.insert(15)
